@@ -84,6 +84,8 @@ def run(tier):
                   actions_required=['StartRun', 'Query', 'FetchVCF', 'FetchAbsent', 'Answer'])
     c.mc_negative('Alleles', 'MC_Alleles_impl_lazyflag_q.cfg', expect_inv='Inv_C18_Truth', workers=4)
     c.mc_negative('Alleles', 'MC_Alleles_impl_hasloc_q.cfg', expect_inv='Inv_C18_Truth', workers=4)
+    c.mc_negative('Alleles', 'MC_Alleles_mut_ign_listed_q.cfg', expect_inv='Inv_C18_Truth', workers=4)
+    c.mc_negative('Alleles', 'MC_Alleles_mut_record_snv_q.cfg', expect_inv='Inv_C18_Truth', workers=4)
     c.mc_negative('Alleles', 'MC_Alleles_impl_cachekey_q.cfg', expect_inv='Inv_C18_CacheSound', workers=4)
     c.mc_negative('Alleles', 'MC_Alleles_impl_cachekey_truth_q.cfg', expect_inv=['Inv_C18_Truth', 'Inv_C18_ModeEq'], workers=4)
 
@@ -171,8 +173,8 @@ def run(tier):
     c.assumptions += [
         'generated VCFs have one record per position, samples with GT only, selected samples exist in the VCF and are distinct',
         'a history works on its own symlink of the compressed VCF, so its cache directory starts empty',
-        'sites whose classification the statement leaves open (missing genotype + multi-base allele; ignored conversion to an '
-        'uncarried ALT) accept "nothing" or "the carriers", but the same in all runs of the same configuration',
+        'sample-centric reading: a site is judged by the alleles the SELECTED samples carry; only a site where a selected sample '
+        'carries a multi-base allele next to a missing genotype accepts "nothing" or "the carriers" (same in all runs of a configuration)',
     ]
     return c.finish(rule='generated VCFs (1-4 samples, 1-4 contigs incl. names excluded from caching, haploid/diploid, phased/unphased '
                          'separators, missing and half-missing genotypes, multi-base REF/ALT, monomorphic records) x 3 kinds of '
